@@ -1,8 +1,8 @@
 (* C17 (deepening round) -- property theorems about the PDE test problems, the PSF generators and the Abel matrix.
    Each is closed by `exact <lemma>` and followed by Print Assumptions. *)
 From CV Require Import Base.Tac Base.LinAlg Base.Cmp Base.QcLin Model.C17_TP Model.C17_TPR Model.C17_More
-     Proofs.C17_Assembly Proofs.C17_PSF Proofs.C17_RealPSF Proofs.C17_PDE.
-From Coq Require Import QArith Qcanon Reals.
+     Proofs.C17_Assembly Proofs.C17_PSF Proofs.C17_RealPSF Proofs.C17_PDE Proofs.C17_Linear.
+From Coq Require Import QArith Qcanon Qabs Reals.
 
 (* ---- Heat1D: the coded matrix np.diag(-2)+np.diag(1,-1)+np.diag(1,1) acts as the second-difference stencil with
         homogeneous Dirichlet values outside the grid (every N, any commutative ring) *)
@@ -152,6 +152,54 @@ Theorem C17_domain_geometry : forall (f : ftype) (has_map : bool),
   (forall c, f = FInstance c -> snd (domain_geometry_desc f has_map) = true /\ base_class f = c).
 Proof. exact domain_geometry_mapped_iff. Qed.
 Print Assumptions C17_domain_geometry.
+
+(* ---- Heat1D: the solution map (forward Euler, any number of steps, any matrix of the right shape) is LINEAR in the
+        initial condition *)
+Theorem C17_heat_solution_linear : forall (R : Type) (r0 r1 : R) (radd rmul rsub : R -> R -> R) (ropp : R -> R),
+  ring_theory r0 r1 radd rmul rsub ropp (@eq R) ->
+  forall (n : nat) (A : list (list R)) (steps : nat), wf_mat n A -> length A = n ->
+  (forall u v, length u = n -> length v = n ->
+     euler_final r0 radd rmul steps A (vadd radd u v) = vadd radd (euler_final r0 radd rmul steps A u) (euler_final r0 radd rmul steps A v)) /\
+  (forall c u, length u = n -> euler_final r0 radd rmul steps A (vscale rmul c u) = vscale rmul c (euler_final r0 radd rmul steps A u)) /\
+  (forall u, length u = n -> length (euler_final r0 radd rmul steps A u) = n).
+Proof. exact euler_final_linear. Qed.
+Print Assumptions C17_heat_solution_linear.
+
+(* ---- forward model through a domain geometry = solve o par2fun.  HYPOTHESIS (C13's law of the expansion geometries
+        KLExpansion / StepExpansion / Continuous1D / CustomKL): par2fun is linear.  Then, without a map, the forward model is
+        linear in the parameters; the Heat1D solution map and the Abel1D matrix are linear `solve`s (the last two conjuncts) *)
+Theorem C17_forward_through_linear_geometry : forall (R : Type) (r0 r1 : R) (radd rmul rsub : R -> R -> R) (ropp : R -> R),
+  ring_theory r0 r1 radd rmul rsub ropp (@eq R) ->
+  (forall (m n k : nat) (par2fun solve : list R -> list R),
+     additive R radd m par2fun -> homogeneous R rmul m par2fun -> maps_to R m n par2fun ->
+     additive R radd n solve -> homogeneous R rmul n solve -> maps_to R n k solve ->
+     additive R radd m (fun p => solve (par2fun p)) /\ homogeneous R rmul m (fun p => solve (par2fun p)) /\
+     maps_to R m k (fun p => solve (par2fun p))) /\
+  (forall n A steps, wf_mat n A -> length A = n ->
+     additive R radd n (euler_final r0 radd rmul steps A) /\ homogeneous R rmul n (euler_final r0 radd rmul steps A) /\
+     maps_to R n n (euler_final r0 radd rmul steps A)) /\
+  (forall n (A : list (list R)), wf_mat n A ->
+     additive R radd n (matvec r0 radd rmul A) /\ homogeneous R rmul n (matvec r0 radd rmul A) /\ maps_to R n (length A) (matvec r0 radd rmul A)).
+Proof.
+  intros R r0 r1 radd rmul rsub ropp Rth. split; [|split].
+  - exact (forward_through_linear_geometry R radd rmul).
+  - exact (heat_solve_is_linear R r0 r1 radd rmul rsub ropp Rth).
+  - exact (matrix_solve_is_linear R r0 r1 radd rmul rsub ropp Rth).
+Qed.
+Print Assumptions C17_forward_through_linear_geometry.
+
+(* ---- vonMises phantom: "scaled such that max(x) = 1" -- the value is 1 at the mesh point of smallest modulus and <= 1
+        elsewhere; the model's choice of that point (vonmises_tm) is a mesh point of minimal modulus *)
+Theorem C17_vonmises_max : forall p t tm : R, (0 <= p)%R -> (Rabs tm <= Rabs t)%R -> (Rabs t <= 1)%R ->
+  (ph_vonmises_R p t tm <= 1)%R /\ ph_vonmises_R p tm tm = 1%R.
+Proof. exact vonmises_max_at_min_abs. Qed.
+Print Assumptions C17_vonmises_max.
+
+Theorem C17_vonmises_tm_minimal : forall (l : list Q) (d : Q),
+  (argmin_abs l d = d \/ In (argmin_abs l d) l) /\ (Qabs (argmin_abs l d) <= Qabs d)%Q /\
+  (forall x, In x l -> (Qabs (argmin_abs l d) <= Qabs x)%Q).
+Proof. exact argmin_abs_spec. Qed.
+Print Assumptions C17_vonmises_tm_minimal.
 
 (* non-vacuity: a PSF is produced, a legacy half row of the right length exists, stencils act on real inputs *)
 Example C17_deep_nonvacuous :
